@@ -367,6 +367,16 @@ func (v *V) setVar(e *Env, obj *types.Var, val Val) {
 			ref = Val{T: types.NewPointer(obj.Type()), S: r}
 			e.st.vars[obj] = ref
 		}
+		if _, isStruct := obj.Type().Underlying().(*types.Struct); isStruct {
+			// a boxed struct lives in the per-field arrays, like any *T
+			ne := *e
+			ne.spec = true // no nil obligation for the box itself
+			v.storeThrough(&ne, Val{T: types.NewPointer(obj.Type()), S: ref.S}, val, token.NoPos)
+			if _, named := obj.Type().(*types.Named); named {
+				e.st.define(eq(fmt.Sprintf("(dyn_type %s)", ref.S), v.typeTag(types.NewPointer(obj.Type()))))
+			}
+			return
+		}
 		v.cellWrite(e.st, ref.S, val)
 		return
 	}
